@@ -148,6 +148,10 @@ def rel_c05(prog):
         try:
             sym = ("ok", dict((k, float(eval(v, {"__builtins__": {}}, {})) if isinstance(v, str) else v)
                              for k, v in sym[1].items()))
+            if base[0] == "exc" and "InconsistentEvidence" in base[1]:
+                # the symbolic semiring cannot decide that a weight expression is zero, so it cannot reject evidence of
+                # probability 0; the property asks for "the same number" and the reference has no number here
+                sym = base
         except ZeroDivisionError:
             sym = base
         except Exception as e:  # noqa
@@ -172,6 +176,8 @@ def rel_c06(prog):
     out["variants"].append(("propagate_evidence", _eval(src, ground_opts={"propagate_evidence": True})))
     out["variants"].append(("propagate_weights", _eval(src, formula_opts={"propagate_weights": SemiringProbability()})))
     out["variants"].append(("log-space", _eval(src, semiring=SemiringLogProbability())))
+    out["variants"].append(("propagate_weights-log-space", _eval(src, formula_opts={"propagate_weights": SemiringLogProbability()},
+                                                              semiring=SemiringLogProbability())))
     for _ in range(2):
         combo = dict((n, v) for n, v in OPTS if rng.random() < 0.5)
         go = {"propagate_evidence": True} if rng.random() < 0.5 else {}
@@ -297,7 +303,7 @@ DESCR = {
 
 def run(pid, tier, seed):
     n = 3000 if tier == "thorough" else 300
-    ps = progs.programs(seed * 104729 + int(pid[1:]), n, max_choices=10)
+    ps = progs.programs(seed * 104729 + int(pid[1:]), n, max_choices=10, extreme=pid in ("C05", "C06"))
     col = Collector("%s:metamorphic" % pid,
                     "%d seeded programs of the bounded family; %s; each variant must give the same accept/reject decision, "
                     "the same reported instances and probabilities (1e-7) as the reference run; distinct = program "
